@@ -357,7 +357,7 @@ namespace Demo.PrivateTable
 
 def icx (b : Nat) : HeapU.Cx where
   I := fun _ β _ σ' => b < β.tR ∧ (∀ a, ¬ β.t a b) ∧ ∃ t, σ'.tables[b]? = some t ∧ t.mt = none
-  stable := fun _ β β' σ σ' s s' he hf hI => by
+  stable := fun _ β β' σ σ' s s' he _ hf hI => by
     obtain ⟨h1, h2, t, h3, h4⟩ := hI
     refine ⟨Nat.lt_of_lt_of_le h1 he.front.2.2.2.1, fun a ha => ?_, t, hf.tR b t h1 h2 h3, h4⟩
     rcases he.freshT a b ha with h5 | h5
